@@ -17,35 +17,9 @@
 (* Values: every X[i] and F[i] agrees to 2^-30 with ZigRefTable, the       *)
 (* ziggurat of the density computed independently (mpmath) from R alone.   *)
 (***************************************************************************)
-EXTENDS Ord, TLC, Json, IOUtils, ZigRefTable
+EXTENDS Ord, TLC, Json, IOUtils, ZigRefTable, Limb14
 
 Tab == ndJsonDeserialize(IOEnv.TABLE)      \* one record per (table, i): [tab, i, xo, fo, xq, fq], plus R records
-
-L14 == 16384
-
-\* little-endian base-2^14 arithmetic on sequences of limbs --------------------
-RECURSIVE Carry(_, _, _)
-Carry(cols, k, c) ==        \* propagate carries through column sums
-    IF k > Len(cols) THEN (IF c = 0 THEN <<>> ELSE <<c % L14>> \o Carry(<<>>, 1, c \div L14))
-    ELSE LET v == cols[k] + c IN <<v % L14>> \o Carry(cols, k + 1, v \div L14)
-ColSum(a, b, k) ==          \* sum of a[i] * b[j] with (i-1) + (j-1) = k-1
-    LET RECURSIVE S(_)
-        S(i) == IF i > Len(a) THEN 0
-                ELSE (IF k - i + 1 >= 1 /\ k - i + 1 <= Len(b) THEN a[i] * b[k - i + 1] ELSE 0) + S(i + 1)
-    IN S(1)
-Mul(a, b) == Carry([k \in 1..(Len(a) + Len(b) - 1) |-> ColSum(a, b, k)], 1, 0)
-Limb(a, k) == IF k <= Len(a) THEN a[k] ELSE 0
-RECURSIVE CmpFrom(_, _, _)
-CmpFrom(a, b, k) ==         \* -1, 0, 1 comparing from the most significant limb k downwards
-    IF k = 0 THEN 0 ELSE IF Limb(a, k) < Limb(b, k) THEN -1 ELSE IF Limb(a, k) > Limb(b, k) THEN 1 ELSE CmpFrom(a, b, k - 1)
-Cmp(a, b) == CmpFrom(a, b, IF Len(a) > Len(b) THEN Len(a) ELSE Len(b))
-RECURSIVE SubFrom(_, _, _, _)
-SubFrom(a, b, k, bw) ==     \* a - b for a >= b
-    IF k > Len(a) THEN <<>>
-    ELSE LET v == a[k] - Limb(b, k) - bw IN
-         IF v < 0 THEN <<v + L14>> \o SubFrom(a, b, k + 1, 1) ELSE <<v>> \o SubFrom(a, b, k + 1, 0)
-AbsDiff(a, b) == IF Cmp(a, b) >= 0 THEN SubFrom(a, b, 1, 0) ELSE SubFrom(b, a, 1, 0)
-TenTo8 == <<8448, 6103>>    \* 10^8 = 6103 * 2^14 + 8448
 
 \* table access -------------------------------------------------------------------
 \* file layout: norm entries 0..256, exp entries 0..256, then the two R records
